@@ -7,4 +7,3 @@ package cal
 // the current date is read from the clock: nothing is written (A-CLOCK)
 //@ func Today() (r)
 //@   trusted A-CLOCK: cal.Today reads the system clock and writes nothing
-//@   pure
